@@ -3,7 +3,7 @@ import CoapVerif.Model.Monitor
 import CoapVerif.Spec.Monitor
 import CoapVerif.Model.Runner
 /-!
-Driver for C18.  Lines: `cfg <periodNs> <maxRetries|-> <t0>`, `recv <t>`, `pong <g> <t>`, `tick <t>`, `datagram <t>`.
+Driver for C18.  Lines: `cfg <periodNs> <maxRetries|-> <t0>`, `recv <t>`, `pong <g> <t>`, `tick <t>`, `datagram <t>`, `ticks <n> <t0> <dt>`.
 `model`: outputs of the model step (`ping g`, `cancelping g`, `close`, or `none`).
 `judge`: `<input> | <observed>`: reference monitor written from the property (latest message time, streak of idle
 firings): a tick within the period does nothing; an idle tick closes (plain) / sends exactly one new ping, or closes
@@ -44,6 +44,48 @@ def parseCfg (ws : List String) : Option (Model.Monitor.Cfg × Int) :=
     some (⟨p, n⟩, t0)
   | _ => none
 
+/-! ### `ticks <n> <t0> <dt>`: n housekeeping ticks at t0, t0+dt, … with a silent peer in between (the far end of the count of
+unanswered pings: retry limits at 2^8, 2^16, 2^24).  The observation is a run-length summary of the per-tick outputs,
+`rle c<cancel marks> 2*none 65535*ping 1*close 3*none`; the model is stepped tick by tick (`Model.Monitor.step`, as
+`Props/C18Far.silent_run_closes` unfolds it), the judge applies its per-tick clause to every tick of the run. -/
+
+structure Rle where
+  cancels : Nat := 0
+  parts : Array String := #[]
+  cur : String := ""
+  n : Nat := 0
+
+def Rle.add (r : Rle) (cl : String) (c : Nat) (times : Nat := 1) : Rle :=
+  if cl == r.cur || r.n == 0 then { r with cancels := r.cancels + c, cur := cl, n := r.n + times }
+  else { cancels := r.cancels + c, parts := r.parts.push s!"{r.n}*{r.cur}", cur := cl, n := times }
+
+def Rle.str (r : Rle) : String :=
+  let parts := if r.n > 0 then r.parts.push s!"{r.n}*{r.cur}" else r.parts
+  s!"rle c{r.cancels} " ++ " ".intercalate parts.toList
+
+def clsOut : Out → Option String
+  | .ping _ => some "ping"
+  | .pingFailed _ => some "pingfail"
+  | .cancelPing _ => none
+  | .close => some "close"
+
+def clsOuts (outs : List Out) : String × Nat :=
+  let keep := outs.filterMap clsOut
+  (if keep.isEmpty then "none" else "+".intercalate keep, outs.length - keep.length)
+
+def ticksLoop (cfg : Model.Monitor.Cfg) (t0 dt : Int) : Nat → Nat → Model.Monitor.St → Rle → Model.Monitor.St × Rle
+  | 0, _, s, r => (s, r)
+  | k + 1, j, s, r =>
+    if s.closed then (s, r.add "none" 0 (k + 1)) else
+    let (s', out) := Model.Monitor.step cfg s (.tick (t0 + (j : Int) * dt))
+    let (cl, c) := clsOuts out
+    ticksLoop cfg t0 dt k (j + 1) s' (r.add cl c)
+
+def parseTicks (ws : List String) : Option (Nat × Int × Int) :=
+  match ws with
+  | ["ticks", n, t0, dt] => do let n ← n.toNat?; let t0 ← parseInt? t0; let dt ← parseInt? dt; some (n, t0, dt)
+  | _ => none
+
 def modelStep (s : MState) (line : String) : MState × String :=
   let ws := words line
   match parseCfg ws with
@@ -54,6 +96,11 @@ def modelStep (s : MState) (line : String) : MState × String :=
       let (st', out) := Model.Monitor.step s.cfg s.st ev
       ({ s with st := st' }, joinOut (out.map fmtOut))
     | none =>
+      match parseTicks ws with
+      | some (n, t0, dt) =>
+        let (st', r) := ticksLoop s.cfg t0 dt n 0 s.st {}
+        ({ s with st := st' }, r.str)
+      | none =>
       match ws with
       | ["trickle", _] => (s, "none")   -- bytes that do not complete a frame: no message was received, nothing happens
       | ["send", _] => (s, "none")      -- the LOCAL side writes a message: only what is received counts as activity of the peer
@@ -78,6 +125,67 @@ def parseObs (s : String) : Option (List Out) :=
     | ["close"] => some (Out.close :: acc)
     | _ => none) (some [])
 
+/-- the judge's clause for one housekeeping tick at time `t` at which `outs` was observed -/
+def judgeTick (s : JState) (t : Int) (outs : List Out) : JState × String :=
+  let pingsOut := outs.filterMap (fun o => match o with | .ping g => some g | _ => none)
+  let closes := outs.any (· == Out.close)
+  if s.closed then
+    (s, if outs.isEmpty then "ok" else "violates activity after the connection was closed")
+  else
+    let idle := s.period ≠ 0 ∧ t > s.last + s.period
+    if !idle then
+      (s, if outs.isEmpty then "ok" else "violates tick within the period caused a ping or a close")
+    else
+      match s.maxRetries with
+      | none =>
+        if closes then ({ s with closed := true }, "ok")
+        else (s, "violates not closed at the first tick after a full silent period")
+      | some n =>
+        let k := s.streak + 1
+        if k > n then
+          if closes && pingsOut.isEmpty then ({ s with closed := true, streak := k }, "ok")
+          else (s, s!"violates {k} consecutive idle firings (> {n}) since the latest message but the connection was not closed")
+        else
+          if closes then ({ s with closed := true }, s!"violates closed after only {s.streak} consecutive unanswered pings (limit {n})")
+          else if pingsOut.length == 1 then ({ s with streak := k, pings := s.pings + 1 }, "ok")
+          else (s, s!"violates idle firing {k} did not send exactly one new ping (saw {pingsOut})")
+
+/-- a class of the run-length summary back to what was observed at such a tick (ping numbers are not part of the summary) -/
+def parseCls (c : String) : Option (List Out) :=
+  if c = "none" then some [] else
+  (c.splitOn "+").foldr (fun p acc => do
+    let acc ← acc
+    match p with
+    | "ping" => some (Out.ping 0 :: acc)
+    | "pingfail" => some (Out.pingFailed 0 :: acc)
+    | "close" => some (Out.close :: acc)
+    | _ => none) (some [])
+
+def parseRle (obs : String) : Option (List (Nat × List Out)) :=
+  match words obs with
+  | "rle" :: _ :: parts =>
+    parts.foldr (fun p acc => do
+      let acc ← acc
+      match p.splitOn "*" with
+      | [k, c] => do let k ← k.toNat?; let o ← parseCls c; some ((k, o) :: acc)
+      | _ => none) (some [])
+  | _ => none
+
+/-- `k` ticks with the same observation, starting with tick number `j` of the run; stops at the first violation -/
+def judgeSame (t0 dt : Int) (outs : List Out) : Nat → Nat → JState → JState × Nat × String
+  | 0, j, s => (s, j, "ok")
+  | k + 1, j, s =>
+    let t := t0 + (j : Int) * dt
+    let (s', v) := judgeTick s t outs
+    if v == "ok" then judgeSame t0 dt outs k (j + 1) s'
+    else (s', j, if v.startsWith "violates " then s!"violates at tick #{j + 1} of the silent run (t={t}): " ++ v.drop 9 else v)
+
+def judgeRuns (t0 dt : Int) : List (Nat × List Out) → Nat → JState → JState × Nat × String
+  | [], j, s => (s, j, "ok")
+  | (k, outs) :: r, j, s =>
+    let (s', j', v) := judgeSame t0 dt outs k j s
+    if v == "ok" then judgeRuns t0 dt r j' s' else (s', j', v)
+
 def judgeLine (s : JState) (line : String) : JState × String :=
   match line.splitOn " | " with
   | [inp] =>
@@ -93,6 +201,16 @@ def judgeLine (s : JState) (line : String) : JState × String :=
       -- what this side sends is not a sign of life of the peer: nothing is triggered, nothing is refreshed (`last` stays)
       (s, if outs.isEmpty then "ok" else "violates a message written by the local side triggered a ping or a close")
     | _, _ =>
+    match parseTicks (words inp) with
+    | some (n, t0, dt) =>
+      -- n ticks in a row: every tick of the run is judged by the clause for a single tick
+      match parseRle obs with
+      | some runs =>
+        if (runs.foldl (fun a r => a + r.1) 0) != n then (s, "violates unparsable-observation") else
+        let (s', _, v) := judgeRuns t0 dt runs 0 s
+        (s', v)
+      | none => (s, "violates unparsable-observation")
+    | none =>
     match parseEv (words inp), parseObs obs with
     | some ev, some outs =>
       let pingsOut := outs.filterMap (fun o => match o with | .ping g => some g | _ => none)
@@ -127,24 +245,7 @@ def judgeLine (s : JState) (line : String) : JState × String :=
             else if closes then ({ s with closed := true }, s!"violates closed after only {s.streak} consecutive unanswered pings (limit {n})")
             else if !pingsOut.isEmpty then (s, "violates a ping appeared although sending fails")
             else ({ s with streak := k, pings := s.pings + 1 }, "ok")
-      | .tick t =>
-        let idle := s.period ≠ 0 ∧ t > s.last + s.period
-        if !idle then
-          (s, if outs.isEmpty then "ok" else "violates tick within the period caused a ping or a close")
-        else
-          match s.maxRetries with
-          | none =>
-            if closes then ({ s with closed := true }, "ok")
-            else (s, "violates not closed at the first tick after a full silent period")
-          | some n =>
-            let k := s.streak + 1
-            if k > n then
-              if closes && pingsOut.isEmpty then ({ s with closed := true, streak := k }, "ok")
-              else (s, s!"violates {k} consecutive idle firings (> {n}) since the latest message but the connection was not closed")
-            else
-              if closes then ({ s with closed := true }, s!"violates closed after only {s.streak} consecutive unanswered pings (limit {n})")
-              else if pingsOut.length == 1 then ({ s with streak := k, pings := s.pings + 1 }, "ok")
-              else (s, s!"violates idle firing {k} did not send exactly one new ping (saw {pingsOut})")
+      | .tick t => judgeTick s t outs
     | _, _ => (s, "violates unparsable-observation")
   | _ => (s, "bad-op")
 
